@@ -223,4 +223,19 @@ CHECKS = {
         rule="execution = (start offset, stimulus sequence, dial answers); states = distinct executions; transitions = stimuli; non-trivial = executions containing at least one acknowledgement tick",
         parts=[dict(pkg="./redis-shake/dbSync", harness=["dbsync"], test="^TestVerif_C08$", shards=16, gomaxprocs=2, budget=dict(quick=75, thorough=1200))],
     ),
+    "C05": dict(
+        level="model_checking",
+        engine="stimx (synctest) + exhaustive fragmentation",
+        technique="exhaustive enumeration of reply framings x TCP fragmentations (every single and double cut position of short streams; boundary cuts pairwise for long ones) x consumer timings, executed on the real PSYNC reply parsing, bounded copy and pipe inside a fake-clock bubble against a model master",
+        text="The model master answers the tool's PSYNC with k keep-alive newlines, +FULLRESYNC/+CONTINUE in several letter cases, more newlines, '$n', n position-coded RDB "
+             "bytes (containing \\n, $, *, CR) and command bytes, delivered in the enumerated segments with the tool run to quiescence after each. The real "
+             "SendPSyncListeningPort, SendPSyncContinue/waitRdbDump, runIncrementalSync/Iocopy/pSyncPipeCopy and the pipe are composed as sendPSyncCmd composes them, "
+             "with bufio sizes 16 and 4096 and a 4 KiB pipe (so that the 8 KiB copy buffer, the bufio layer and the pipe capacity are all crossed), and through the real "
+             "sendPSyncCmd with production sizes for a smaller set. Consumers read eagerly, one byte at a time, or only after the pipe has filled (back-pressure). "
+             "Oracle: bytes out of the pipe == RDB || commands exactly; run id, offset and size used == announced; only ACK 0 during the RDB phase. Dump mode is checked by "
+             "C05's second part in package run.",
+        note="the small-buffer composition repeats the 25 lines of sendPSyncCmd in the harness (sizes are constants in the tool); the production composition itself is run on a subset",
+        rule="execution = (framing, RDB size, tail, bufio size, consumer mode, cut set); states = distinct executions; transitions = segments delivered; non-trivial = executions with at least one cut",
+        parts=[dict(pkg="./redis-shake/dbSync", harness=["dbsync"], test="^TestVerif_C05$", shards=16, gomaxprocs=2, budget=dict(quick=75, thorough=1200))],
+    ),
 }
